@@ -123,6 +123,8 @@ enum EvKind {
     Ping,
     Fetch(usize),
     Present(usize, usize),
+    /// the server takes a new (BEP42) id: its address is reported by its peer, it pings itself, re-keys
+    Rekey,
 }
 
 /// `idle`: after the first keep-alive (t = 0) the node receives nothing at all for this long; the whole
@@ -130,7 +132,9 @@ enum EvKind {
 pub fn scenario(r: &mut Report, seed: u64, g: u64, holders: usize, case_id: u64, idle: u64) {
     r.eval();
     let mut rng = Rng::new(seed);
-    let fx = Fixture::new(seed, None);
+    // a third of the timelines: the server re-keys once, at a random instant (tokens are not the routing tables' business)
+    let rekey_at = if case_id % 3 == 1 { Some(30 * SEC + rng.below(24 * MIN)) } else { None };
+    let fx = if rekey_at.is_some() { Fixture::new_rekeying(seed, None) } else { Fixture::new(seed, None) };
     let s2 = fx.second_server(Ipv4Addr::new(45, 12, 0, 9));
     let s2addr = s2.addr;
     let t0 = fx.w.now();
@@ -149,6 +153,9 @@ pub fn scenario(r: &mut Report, seed: u64, g: u64, holders: usize, case_id: u64,
         for (j, p) in h.presents.iter().enumerate() {
             evs.push((h.fetch_at + p.age, EvKind::Present(i, j)));
         }
+    }
+    if let Some(t) = rekey_at {
+        evs.push((t, EvKind::Rekey));
     }
     if idle > 0 {
         for e in evs.iter_mut() {
@@ -183,6 +190,11 @@ pub fn scenario(r: &mut Report, seed: u64, g: u64, holders: usize, case_id: u64,
                 let id = keep.id;
                 arrivals.push(fx.w.now() + MS);
                 fx.rpc(&mut keep, |t| q_ping(t, &id));
+            }
+            EvKind::Rekey => {
+                if fx.trigger_rekey() {
+                    r.count("timelines_with_a_rekey_of_the_server");
+                }
             }
             EvKind::Fetch(i) => {
                 let id = clients[i].id;
